@@ -139,6 +139,7 @@ func HarnessC14Real() {
 	head := "<title>doc title</title>"
 	ogAll := true
 	ogTitle := ""
+	var realOG []string
 	for _, name := range []string{"title", "type", "url", "image"} {
 		v, present := ogVal(name)
 		c := v
@@ -153,6 +154,9 @@ func HarnessC14Real() {
 		}
 		if present {
 			head += `<meta property="og:` + name + `" content="` + c + `">`
+		}
+		if c != "" {
+			realOG = append(realOG, name)
 		}
 		if c == "" {
 			ogAll = false
@@ -180,6 +184,18 @@ func HarnessC14Real() {
 	case 3: // one before, one after
 		before(artSec)
 		head += artTime
+	}
+	// a property with a real value may be preceded by an empty placeholder
+	// occurrence of itself: the block still provides that value
+	if artOrder == 0 && len(realOG) > 0 {
+		if d := vx.Choose("dup", len(realOG)+1); d > 0 {
+			tag := `<meta property="og:` + realOG[d-1] + `"`
+			filler := tag + ` content="">`
+			if vx.Choose("dupform", 2) == 1 {
+				filler = tag + `>`
+			}
+			head = strings.Replace(head, tag, filler+tag, 1)
+		}
 	}
 	body := ""
 	schema := vx.Choose("schema", 3)
